@@ -833,9 +833,8 @@ package k8s
 //@   ensures [C06] norm: res1 == nil ==> ((if res0 != "" then res0 else reqStr(req)) == normReq(req))
 
 //@ func SelectorsFullMatch
-//@   requires ruleSelector != nil && repSelector != nil
 //@   modifies *
-//@   ensures [C06,C07] full: (res1 == nil && res0) ==> (ruleSelector == repSelector
+//@   ensures [C06,C07] full: (res1 == nil && res0 && ruleSelector != nil && repSelector != nil) ==> (ruleSelector == repSelector
 //@         || (len(valof(ruleSelector).MatchLabels) == 0 && len(valof(ruleSelector).MatchExpressions) == 0)
 //@         || (len(reqsOf(valof(ruleSelector))) == len(reqsOf(valof(repSelector)))
 //@             && (forall i int :: {reqsOf(valof(ruleSelector))[i]} (0 <= i && i < len(reqsOf(valof(ruleSelector)))) ==> normReq(reqsOf(valof(ruleSelector))[i]) == normReq(reqsOf(valof(repSelector))[i]))))
